@@ -287,13 +287,15 @@ def euler(ai, bi, select, b1950=False, dtype="f8"):
     sb = sin(b)
     cb = cos(b)
     cbsa = cb * sin(a)
-    b = -stheta[i] * cbsa + ctheta[i] * sb
-    (w,) = np.where(b > 1.0)
-    if w.size > 0:
-        b[w] = 1.0
-    bo = arcsin(b) * R2D
+    x = cb * cos(a)
+    y = ctheta[i] * cbsa + stheta[i] * sb
+    z = -stheta[i] * cbsa + ctheta[i] * sb
+    # arctan2 keeps full precision at the poles, where arcsin loses half
+    # the digits and needs clipping (the tabulated sin/cos of theta are
+    # only good to 1e-11)
+    bo = arctan2(z, sqrt(x * x + y * y)) * R2D
 
-    a = arctan2(ctheta[i] * cbsa + stheta[i] * sb, cb * cos(a))
+    a = arctan2(y, x)
 
     ao = ((a + psi[i] + fourpi) % twopi) * R2D
 
